@@ -40,12 +40,32 @@ pub const HOSTS: &[(&str, &str, &str)] = &[
     // case-insensitive hosts, only for strings without any cased character (where it cannot matter)
     ("(?i:E(?<=E))", "(?i:", ")"), // filled specially
     ("(?i)(?<![\\s\\S]{99})E", "(?i)(?<![\\s\\S]{99})", ""),
+    // the two halves of the string escaped separately (E = E1 E2): nested look-arounds starting at different positions,
+    // an atomic group inside a look-behind, redundant groups as the whole body of a look-ahead
+    ("E(?<=(?<=E1)E2)", "", ""),
+    ("(?=E1(?=E2))E", "", ""),
+    ("E(?<=(?>E))", "", ""),
+    ("(?=(?:E1)(?:E2))E", "", ""),
+    ("(?>(?:E1)(?:E2))(?<=(?:E1)(?:E2))", "", ""),
 ];
 
 const X_HOST: usize = 11;
 
 fn swap_case(s: &str) -> String {
     s.chars().map(|c| if c.is_lowercase() { c.to_uppercase().next().unwrap_or(c) } else if c.is_uppercase() { c.to_lowercase().next().unwrap_or(c) } else { c }).collect()
+}
+
+fn host_pattern_s(host: usize, s: &str) -> String {
+    let mid = s.char_indices().nth(s.chars().count() / 2).map_or(s.len(), |(i, _)| i);
+    let (e, e1, e2) = (escape(s), escape(&s[..mid]), escape(&s[mid..]));
+    match HOSTS[host].0 {
+        "E(?<=(?<=E1)E2)" => format!("{}(?<=(?<={}){})", e, e1, e2),
+        "(?=E1(?=E2))E" => format!("(?={}(?={})){}", e1, e2, e),
+        "E(?<=(?>E))" => format!("{}(?<=(?>{}))", e, e),
+        "(?=(?:E1)(?:E2))E" => format!("(?=(?:{})(?:{})){}", e1, e2, e),
+        "(?>(?:E1)(?:E2))(?<=(?:E1)(?:E2))" => format!("(?>(?:{})(?:{}))(?<=(?:{})(?:{}))", e1, e2, e1, e2),
+        _ => host_pattern(host, &e),
+    }
 }
 
 fn host_pattern(host: usize, e: &str) -> String {
@@ -124,7 +144,7 @@ pub fn check_string(s: &str, hosts: &[usize]) -> Result<Info, (usize, String, Fa
         if HOSTS[h].0.starts_with("(?i") && (s.to_lowercase() != s || s.to_uppercase() != s) {
             continue;
         }
-        let pat = host_pattern(h, &e);
+        let pat = host_pattern_s(h, s);
         let built = if HOSTS[h].0.starts_with("ci-builder") {
             engine::build_with(&pat, |b| {
                 b.case_insensitive(true);
@@ -247,14 +267,14 @@ fn shrink(s: &str, hosts: &[usize], kind: &str) -> String {
 fn violation(s: &str, hosts: &[usize], f: Fail) -> Violation {
     let small = shrink(s, hosts, &f.kind);
     match check_string(&small, hosts) {
-        Err((h, t, f2)) => Violation { case: json!({"string": small, "host": HOSTS[h].0, "host_index": h, "text": t, "pattern": host_pattern(h, &escape(&small))}), fail: f2 },
+        Err((h, t, f2)) => Violation { case: json!({"string": small, "host": HOSTS[h].0, "host_index": h, "text": t, "pattern": host_pattern_s(h, &small)}), fail: f2 },
         Ok(_) => Violation { case: json!({"string": s}), fail: f },
     }
 }
 
 pub fn run(ctx: &RunCtx) -> Outcome {
     let mut o = Outcome::default();
-    o.rule = format!("strings: every string of length <= L over {} characters (all regex meta-characters, - & ~ # space newline tab , : < > = ! ', the letters that form escapes after a backslash, digits, é € 😀) exhaustively, plus proptest strings of length 4..12; each escaped and embedded in {} host patterns (bare, (?=)E, (?:E), (?>E), (E), (?=E)E, E(?<=E), (?-i:E), (?:E|(?!)), two hosts that put E into one delegated piece together with empty-matching class repeats, (?x:E) for whitespace-free strings, three hosts built with RegexBuilder::case_insensitive(true) around (?-i:E), E as the second group of a delegated run with its span compared, and two (?i) hosts for strings without cased characters) that cannot change what E matches; pair stage: every ordered pair of non-empty strings of length <= 2 (thorough: first <= 3) over the characters . + ( | \\ $ # - space a b é ! as the two alternatives of (?<=E1|E2)!, (?<!E1|E2)! and (?:E1|E2)(?=!), expected spans computed with str methods. Oracle: the host compiles; on texts built from the string (itself, embedded after a multi-byte prefix, doubled, near misses with one character changed or dropped, a case-swapped occurrence in front) find == str::find; escape borrows iff nothing needed escaping and only inserts backslashes before special characters. Non-trivial = the string has a meta-character and occurs at an offset > 0. Distinct = distinct (string, host, text).", ALPHA.len(), HOSTS.len());
+    o.rule = format!("strings: every string of length <= L over {} characters (all regex meta-characters, - & ~ # space newline tab , : < > = ! ', the letters that form escapes after a backslash, digits, é € 😀) exhaustively, plus proptest strings of length 4..12; each escaped and embedded in {} host patterns (bare, (?=)E, (?:E), (?>E), (E), (?=E)E, E(?<=E), (?-i:E), (?:E|(?!)), two hosts that put E into one delegated piece together with empty-matching class repeats, (?x:E) for whitespace-free strings, three hosts built with RegexBuilder::case_insensitive(true) around (?-i:E), E as the second group of a delegated run with its span compared, two (?i) hosts for strings without cased characters, and five hosts that escape the two halves of the string separately (nested look-arounds starting at different positions, an atomic group inside a look-behind, redundant (?:..) groups as the whole body of a look-around)) that cannot change what E matches; pair stage: every ordered pair of non-empty strings of length <= 2 (thorough: first <= 3) over the characters . + ( | \\ $ # - space a b é ! as the two alternatives of (?<=E1|E2)!, (?<!E1|E2)! and (?:E1|E2)(?=!), expected spans computed with str methods. Oracle: the host compiles; on texts built from the string (itself, embedded after a multi-byte prefix, doubled, near misses with one character changed or dropped, a case-swapped occurrence in front) find == str::find; escape borrows iff nothing needed escaping and only inserts backslashes before special characters. Non-trivial = the string has a meta-character and occurs at an offset > 0. Distinct = distinct (string, host, text).", ALPHA.len(), HOSTS.len());
     o.assumptions = vec!["oracle: str::find".into()];
     o.required_classes = vec!["string:has-meta-character".into(), "string:plain".into(), "pair:longer-first".into(), "pair:shorter-first".into()];
     let all_hosts: Vec<usize> = (0..HOSTS.len()).collect();
@@ -268,7 +288,7 @@ pub fn run(ctx: &RunCtx) -> Outcome {
                 return st;
             }
             // the longest strings go through three hosts only (bare, VM-forcing, look-behind)
-            let hosts: &[usize] = if s.chars().count() >= 3 && ctx.quick() || s.chars().count() >= 4 { &[0, 1, 6, 9, 11, 13, 15, 16] } else { &all_hosts };
+            let hosts: &[usize] = if s.chars().count() >= 3 && ctx.quick() || s.chars().count() >= 4 { &[0, 1, 6, 9, 11, 13, 15, 16, 18, 20, 22] } else { &all_hosts };
             st.evaluations += (hosts.len() * (3 + 3 * s.chars().count() + 2)) as u64;
             st.patterns += 1;
             match check_string(s, hosts) {
